@@ -10,11 +10,13 @@ What is proved here about the model (Model.Lexer, Model.Parser, Model.Actions ov
     of tokens: same token type / value / position / identity, same division-or-regex and ASI decisions, same
     parenthesis stack, same exception with the same message; the successor states are again related.
   * `lr_run_comments_transparent` — the LR driver preserves the relation (generic simulation lemma).
-  * `comments_transparent_partial` — ∀ text, `eraseOutcome (parse text true) = parse text false`, ASSUMING the
-    action-level statement `ActionsTransparent Gen.Actions.actions` (a semantic action run without capture on erased
-    arguments returns the erasure of its result with capture and raises the same error).  That statement is about the
-    interpreter `Actions.evalD` only; it is not proved here (reported as unfinished) and is exercised by the check
-    (`erase (model parse with capture) = model parse without` on every generated input, obligation `model:…`).
+  * `actions_transparent` — the action-level statement: a semantic action (Model.Actions.reduce over Gen.Actions) run
+    without capture on comment-erased arguments returns the erasure of its result with (or without) capture and raises
+    the same error.  Proved for every table whose descriptors never read a `comments` attribute
+    (`actions_never_read_comments`, kernel decision), by mutual structural induction over the descriptors.
+  * `comments_transparent` — ∀ text, `eraseOutcome (parse text true) = parse text false`: same acceptance, same error
+    (class and message), same tree — positions and token maps included — up to the `@comments` attributes.  FULL.
+    (`comments_transparent_partial` is kept: the same statement from the hypothesis `ActionsTransparent`.)
  FAITHFULNESS
   * `comments_faithful_lexer` — the comments `token()` hands over in `token.hidden_tokens` are comment tokens of the
     source: LINE_COMMENT / BLOCK_COMMENT lexemes of the first matching lexer rule, verbatim at their recorded offset,
@@ -31,10 +33,13 @@ What is proved here about the model (Model.Lexer, Model.Parser, Model.Actions ov
     marker alone is handled by a handler that unconditionally emits the line terminator, no combined key can start at it.
   * `comment_carriers_print_comments_partial` + `case_block_drops_comments` — every node kind that can carry comments
     prints them first, EXCEPT CaseBlock, whose definition has no CommentsAttr (finding KF-13c: the negation is proved).
-  * the restricted-production split (KF-13a) is a consequence of `line_comment_followed_by_newline`: it is reproduced on
-    the implementation and, through tie S3/S4, on the unparser model by the check; no Lean witness is given here.
+  * `restricted_production_split_witness` (KF-13a, kernel evaluation of parser model + printer model + reference parser):
+    `function f(){return /*x*/ 1}` prints as `return /*x*/⏎1;`, which the reference reads as `return; 1;`.
+    `case_block_comment_not_printed_witness`: KF-13c evaluated on the models.
 -/
 import CalmVerif.Proofs.CommentsParser
+import CalmVerif.Proofs.CommentsFull
+import CalmVerif.Proofs.CommentsWitness
 import CalmVerif.Proofs.CommentsFaithful
 import CalmVerif.Proofs.CommentsTable
 import CalmVerif.Proofs.CommentsActions
@@ -85,6 +90,26 @@ theorem lr_run_comments_transparent {τ ν σ ε : Type} {S : Sem τ ν σ ε} {
 theorem comments_transparent_partial (h : ActionsTransparent Gen.Actions.actions) (text : List Char) :
     eraseOutcome (Parser.parse text true) = Parser.parse text false :=
   (parseWith_erase Grammar.cached h text).symm
+
+/-- D: no semantic action reads or copies a `comments` attribute of an argument -/
+theorem actions_never_read_comments : noCommentsRead Gen.Actions.actions = true := by
+  decide +kernel
+
+/-- T: the semantic actions commute with the erasure of comments (see `ActionsTransparent`) -/
+theorem actions_transparent : ActionsTransparent Gen.Actions.actions :=
+  actionsTransparent Gen.Actions.actions actions_never_read_comments
+
+/-- T (FULL): for every text, parsing without capture is parsing with capture with the comments erased — the same
+    acceptance, the same error, the same tree (positions and token maps included) -/
+theorem comments_transparent (text : List Char) :
+    eraseOutcome (Parser.parse text true) = Parser.parse text false :=
+  comments_transparent_partial actions_transparent text
+
+/-- non-vacuity of `comments_transparent`: on `/*x*/a` the model accepts with and without capture, the tree with capture
+    carries a comment, the one without does not (so the erasure does something) -/
+example : (accTree (Parser.parse "/*x*/a".toList true)).map hasComments = some true ∧
+    (accTree (Parser.parse "/*x*/a".toList false)).map hasComments = some false := by
+  decide +kernel
 
 /-- non-vacuity: the erasure is not the identity — a lexer state with a pending comment and capture on is mapped to a
     different state, and a token with a hidden comment to a different token -/
@@ -150,10 +175,6 @@ theorem set_comments_verbatim (t : Actions.Tok)
 theorem no_comment_attached_twice : noSlotTwice Gen.Actions.actions = true := by
   decide +kernel
 
-/-- D: no semantic action reads or copies a `comments` attribute of an argument -/
-theorem actions_never_read_comments : noCommentsRead Gen.Actions.actions = true := by
-  decide +kernel
-
 /-- non-vacuity: the check rejects an action that anchors two nodes at the same slot -/
 example : noSlotTwice [{ default := [], probed := true, exceptions := [], result := .node "A" [("x", .node "B" [] (.at 1 0) [] [] none)] (.at 1 0) [] [] none }] = false := by
   decide
@@ -182,6 +203,22 @@ theorem comment_carriers_print_comments_partial :
 /-- D (negation witness, finding KF-13c): CaseBlock can carry comments and its definition does not print them -/
 theorem case_block_drops_comments :
     carriers.contains "CaseBlock" = true ∧ printsCommentsFirst Gen.Defs.definitions "CaseBlock" = false := by
+  decide +kernel
+
+/-- D (negation witness, finding KF-13a): the comment of the operand of `return` is printed with the Newline of its
+    definition INSIDE the restricted production — the models print `function f(){return /*x*/ 1}` (parsed with capture) as
+    `return /*x*/⏎1;`, which the ES5.1 reference parser reads as two statements (`return; 1;`), the source as one -/
+theorem restricted_production_split_witness :
+    printedWithComments "function f(){return /*x*/ 1}" = some "function f() {\n  return /*x*/\n  1;\n}\n" ∧
+    specBodyLen "function f() {\n  return /*x*/\n  1;\n}\n" = some 2 ∧
+    specBodyLen "function f(){return /*x*/ 1}" = some 1 := by
+  decide +kernel
+
+/-- D (witness of KF-13c on the models): the comment before the `{` of a switch body is attached by the parser and is not
+    in the printed text -/
+theorem case_block_comment_not_printed_witness :
+    (accTree (Parser.parse "switch(a)/*c*/{}".toList true)).map hasComments = some true ∧
+    printedWithComments "switch(a)/*c*/{}" = some "switch (a) {\n}\n" := by
   decide +kernel
 
 end CalmVerif.Props.C13
